@@ -47,6 +47,7 @@ func makeMap(kt types.Type, reserve int64) value {
 
 // hasSym reports whether v (a map key) contains symbolic parts.
 func hasSym(v value) bool {
+	v = forceDeep(v)
 	switch v := v.(type) {
 	case symv, symstr:
 		return true
